@@ -28,7 +28,8 @@ def representative(rnd, per_group=1, cap=None):
 
 SKIP_LINES = ["", "; just a comment", "label:", "section .text", "global f", "   ", "\t; indented comment", "SECTION .text", "GLOBAL test", "my_label: ; with comment",
               "\t", " \t ", ";", ";;; mov rax, rbx", "  label_2:", ".L1:", "_start:", "L1: ", "Section .data", "section .text align=16", "global _start, foo", "GLOBAL\tmain",
-              "section\t.text", "\tglobal f", "   section .bss", "loop:", "mov:", "rax:", "x1: ; c", "label:\t", "; section global label: [rax] 0x10"]
+              "section\t.text", "\tglobal f", "   section .bss", "loop:", "mov:", "rax:", "x1: ; c", "label:\t", "; section global label: [rax] 0x10",
+              "; \xe2\x80\x94 UTF-8 dash, Latin-1 \xe9, bytes \x80 \x8a \x8d \xff", "\t;\x01\x7f control characters in a comment"]
 
 
 def accepted_alone(binary, lines, mask="211"):
